@@ -138,14 +138,18 @@ def coqc_file(path, timeout=600):
     return rc, out, dt
 
 
-def audit(pid, prop_module, theorems):
+def load_pins(pid):
+    return json.load(open(os.path.join(VERIF, 'checks', 'pins', pid + '.json')))
+
+
+def audit(pid, prop_module, theorems, imports=None):
     """Compile a throw-away file that (a) checks every property theorem against
     its pinned statement and (b) prints its assumptions.  Returns
     (ok, axioms: {thm: [names]}, log)."""
     d = os.path.join(WORK, pid)
     os.makedirs(d, exist_ok=True)
     path = os.path.join(d, f'Audit_{pid}.v')
-    lines = [f'From VL Require Import {prop_module}.', 'From VL Require Import Lib.Bytes.']
+    lines = [imports or '', f'From VL Require Import {prop_module}.', 'From VL Require Import Lib.Bytes.']
     for name, stmt in theorems.items():
         lines.append(f'Check ({name} : {stmt}).')
     for name in theorems:
@@ -350,6 +354,9 @@ class Report:
         os.makedirs(os.path.join(VERIF, 'replays'), exist_ok=True)
         lines = []
         rc = 0
+        if os.environ.get('VERIF_DEBUG'):
+            for what, replay, _ in self.violations[:400]:
+                print('DBG-VIOLATION', what[:160], json.dumps(replay, default=str)[:600])
         # concrete failing inputs first
         concrete = [v for v in self.violations if v[2]]
         if concrete:
@@ -402,7 +409,7 @@ BASE_TRUSTED = [
 ]
 
 
-def standard_proof_phase(rep, sections, targets, prop_module, theorems, proof_files, oracle_targets=()):
+def standard_proof_phase(rep, sections, targets, prop_module, theorems, proof_files, oracle_targets=(), imports=None):
     """translator -> make -> forbidden scan -> audit.  Returns True when the proof
     side is intact.  Broken parts are recorded in rep.broken."""
     ok = True
@@ -426,7 +433,7 @@ def standard_proof_phase(rep, sections, targets, prop_module, theorems, proof_fi
     n_obl = len(theorems) + count_lemmas(proof_files)
     rep.cov['obligations'] = n_obl
     if ok:
-        aok, axioms, alog = audit(rep.pid, prop_module, theorems)
+        aok, axioms, alog = audit(rep.pid, prop_module, theorems, imports)
         rep.cov['axioms'] = axioms
         if not aok:
             rep.broke('audit: pinned statement or assumption check failed', alog[-1200:])
